@@ -289,23 +289,26 @@ def n_inis(k, mode):
 
 
 def choose_inis(k, seed, budget, nrandom, force=None):
-    """Exhaustive over all entity/permutation vectors when steps x vectors fits the budget, otherwise one axis
-    at a time plus seeded random combinations."""
+    """Exhaustive over all entity/permutation vectors when steps x vectors fits the budget; otherwise one axis at
+    a time plus seeded random combinations; for very long kernels the first vector plus as many random ones as fit."""
     k["extra"] = []
     rnd = random.Random(f"ini-{seed}-{k['name']}")
 
     def rand_combo():
         return {"e": [rnd.choice(v) for v in k["valid"]["e"]], "q": [rnd.choice(v) for v in k["valid"]["q"]]}
     steps = k["steps"] or 1
+    has = bool(k["valid"]["e"])
     if force == "base":
         k["inimode"] = "base"
-        if k["valid"]["e"]:
-            k["extra"] = [rand_combo() for _ in range(nrandom)]
+        k["extra"] = [rand_combo() for _ in range(nrandom)] if has else []
     elif steps * n_inis(k, "all") <= budget:
         k["inimode"] = "all"
-    else:
+    elif steps * (n_inis(k, "axes") + nrandom) <= budget:
         k["inimode"] = "axes"
         k["extra"] = [rand_combo() for _ in range(nrandom)]
+    else:
+        k["inimode"] = "base"
+        k["extra"] = [rand_combo() for _ in range(max(0, min(nrandom, budget // steps - 1)))] if has else []
     return n_inis(k, k["inimode"])
 
 
@@ -435,7 +438,7 @@ def run_kernels(chk, kernels, invariants, label, max_violations=6):
     return stats
 
 
-def run_pairs(chk, kernels, pairs, invariants, label, key_prefix):
+def run_pairs(chk, kernels, pairs, invariants, label, key_prefix, max_violations=6):
     """KernelPair.tla.  pairs refer to kernels by name; split by pair into parallel TLC runs."""
     if not pairs:
         return {"states": 0, "pairs": 0}
@@ -443,10 +446,13 @@ def run_pairs(chk, kernels, pairs, invariants, label, key_prefix):
     by_name = {k["name"]: k for k in kernels}
     stats = {"states": 0, "generated": 0, "pairs_done": 0, "dz": 0, "tlc_runs": 0}
     lock = threading.Lock()
+    nviol = [0]
 
     def one(batch, bi):
         todo = list(batch)
         while todo:
+            if nviol[0] >= max_violations:
+                return
             names = []
             for p in todo:
                 for n in (p["a"], p["b"]):
@@ -487,7 +493,12 @@ def run_pairs(chk, kernels, pairs, invariants, label, key_prefix):
                     chk.violation(key, what, {"engine": "S4", "invariant": what_inv, "mode": mode, "entry": k["entry"],
                                               "kernel": k["label"], "a": ka, "b": kb, "detail": v[5:],
                                               "trace_tail": r.error_trace[-30:]})
-                todo = [p for p in todo if not (p["a"] == ka or p["b"] == ka)]
+                    nviol[0] += 1
+                    if nviol[0] >= max_violations:
+                        chk.note(f"{label}: stopped after {nviol[0]} violations; remaining pairs not examined")
+                        return
+                # every pair of this kernel (all variants, all planes) is dropped: one verdict per kernel
+                todo = [p for p in todo if by_name[p["a"]]["label"] != k["label"]]
                 continue
             tlc.must_ok(r, f"KernelPair.tla {label} batch {bi}")
             raise MachineryError(f"KernelPair.tla {label}: unexpected TLC result {r.violated}:\n" + r.out[-2000:])
@@ -503,7 +514,7 @@ def run_pairs(chk, kernels, pairs, invariants, label, key_prefix):
 # ---------------------------------------------------------------------------------------------
 def _tier_cfg(chk):
     quick = chk.tier == "quick"
-    return {"quick": quick, "max_steps": 20000 if quick else 600000, "budget_all": 60000 if quick else 1500000,
+    return {"quick": quick, "max_steps": 20000 if quick else 200000, "budget_all": 60000 if quick else 500000,
             "nrandom": 2 if quick else 8, "entries": kcorpus.names(chk.tier),
             "demos": [] if quick else kcorpus.demo_files()}
 
@@ -577,10 +588,10 @@ def run_c07(chk):
     sel = _select(chk, kernels, cfgt["max_steps"])
     for k in sel:
         k["runplanes"] = [2]                       # random A0
-        choose_inis(k, chk.seed, 0, 1 if cfgt["quick"] else 3, force="base")
+        choose_inis(k, chk.seed, 0, 0 if cfgt["quick"] else 3, force="base")
     st = run_kernels(chk, sel, ["WriteDiscipline", "NoUninitialisedRead"], "c07")
     # value level: Additive and Repeatable on the machine
-    lim = 4000 if cfgt["quick"] else 60000
+    lim = 2500 if cfgt["quick"] else 30000
     small = [k for k in sel if k["steps"] <= lim]
     pairs = []
     for k in small:
@@ -790,7 +801,7 @@ def realc_purity(chk, kernels):
                     st["unjudged_rounding"] += 1
         # threads: disjoint A, shared inputs
         ini = _ini_list(k, chk.seed, 1)[0]
-        nthreads, reps = 8, (40 if chk.tier == "quick" else 300)
+        nthreads, reps = 8, (25 if chk.tier == "quick" else 300)
         A0s = [np.array([random.Random(f"t{t}-{chk.seed}-{k['name']}").uniform(-2, 2) for _ in range(na)]) for t in range(nthreads)]
         ref = []
         for t in range(nthreads):
